@@ -187,6 +187,11 @@ pub async fn layout_case(out: &mut Out, groups: &[Vec<Upd>], c: &CCfg, read_faul
         out.violation(sig, "the pass dropped a tombstone although the configured tombstone TTL is longer than the time elapsed since the epoch (now)",
             json!({"workload": p.text, "now_ms": c.now, "tombstone_ttl_ms": c.ttl.as_millis().to_string(), "tombstones_removed": tombs}));
     }
+    // the regime of C13.compaction_preserves_visible_full_pass: the pass takes every listed segment
+    let full_pass = r.is_ok() && cand.len() == p.segs.len() && cand.len() as u64 <= c.maxper && skipped.is_empty() && read_recs.is_empty();
+    if full_pass {
+        out.count(if tombs > 0 { "gc:full-pass:tombstones-dropped" } else { "gc:full-pass:none-dropped" });
+    }
     let (fb, fa) = (fold_of(&before), fold_of(&after));
     let nontrivial = outcome == "compacted" && groups.len() >= 2;
     out.case(&p.text, nontrivial);
@@ -199,7 +204,12 @@ pub async fn layout_case(out: &mut Out, groups: &[Vec<Upd>], c: &CCfg, read_faul
                 return;
             }
             let differs = if tombs == 0 { a != b } else { visible(a) != visible(b) };
-            if differs {
+            if differs && full_pass {
+                // every listed segment took part (no checkpoint in these stores): proved impossible for
+                // the modelled code at every cutoff — never a listed finding
+                out.violation("C13:full-pass:visible-state-differs", "a compaction pass that took EVERY listed segment changed what a reader sees after recovery",
+                    replay(json!({"before": show_upds(b), "after": show_upds(a), "tombstones_removed": tombs, "removed_segments": removed})));
+            } else if differs {
                 let (mut sig, key) = classify(b, a, tombs, &all, c.cutoff());
                 // cause of the uncompacted value: where does the key live outside the pass?
                 let mut outside: Vec<serde_json::Value> = Vec::new();
@@ -226,6 +236,14 @@ pub async fn layout_case(out: &mut Out, groups: &[Vec<Upd>], c: &CCfg, read_faul
                         }
                     } else if skipped_unreadable && sig.starts_with("C13:tombstone-gc:") {
                         sig = "C13:tombstone-gc:skipped-unreadable-segment".to_string();
+                    } else if outside.is_empty() {
+                        // the listed tombstone-gc findings all need the key to live on in a listed
+                        // segment OUTSIDE the pass (what `GcSafe` excludes); with nothing outside the
+                        // pass must not change what a reader sees (C13.tombstone_gc_safe_partial,
+                        // C13.compaction_preserves_visible_full_pass): a different cause
+                        if let Some(sym) = sig.strip_prefix("C13:tombstone-gc:") {
+                            sig = format!("C13:tombstone-gc:key-not-outside-the-pass:{}", sym);
+                        }
                     }
                 }
                 if !read_recs.is_empty() && sig != "C13:tombstone-gc:skipped-unreadable-segment" {
